@@ -185,12 +185,16 @@ def run(chk):
             chk.mismatch('_has_worker_timed_out', {'line': line}, i, m)
     transducer_suite(chk, 800 if chk.tier == 'quick' else 10000, suite='stamp discipline: AbstractWorker.run vs Mpire.Worker.run (scripted comms)')
     scs = timeout_scenarios(rng, 250 if chk.tier == 'quick' else 4000)
+    for _sc in scs:
+        _sc['want_ffail'] = True
     obs = run_scenarios(chk, 'timeout scenarios under DetSim (exact virtual latency)', scs, {'C03'},
                         nontrivial=lambda sc, o: sc['expect'] is not None,
                         dist=lambda sc, o: {'overrun': sc['expect'] or 'none', 'block_over_t': round(sc['block'] / sc['t']), 'n_jobs': sc['pool']['n_jobs'],
                                             'keep_alive_history': len(sc['ops']) > 1})
     for sc, o in zip(scs, obs):
         judge(chk, sc, o)
+    from harness.checks.C04 import ffail_tie
+    ffail_tie(chk, scs, obs)      # the timeout handler as one of the parties that report a failing call
     ms = mixed_scenarios(rng, 80 if chk.tier == 'quick' else 1200)
     mobs = run_scenarios(chk, 'an apply task times out while a map-family call without timeouts runs on the same pool (DetSim)', ms, {'C01', 'C02'},
                          nontrivial=lambda sc, o: True, dist=lambda sc, o: {'map_kind': sc['ops'][1]['op'], 'n_jobs': sc['pool']['n_jobs']})
